@@ -63,6 +63,8 @@ pub enum Role {
     Silent,
     /// answers FIND_NODE with an empty peer list, silent on everything else
     SilentPut,
+    /// like Silent, but the whole node dies as soon as the first request has been read
+    DieOnReq,
     /// litep2p node without the Kademlia protocol
     NoKad,
 }
@@ -142,6 +144,8 @@ struct SilentKad {
     log: Log,
     node: u32,
     ackfind: bool,
+    /// tells the node loop to die when the first message has been read
+    die: Option<mpsc::UnboundedSender<()>>,
 }
 
 #[async_trait::async_trait]
@@ -184,6 +188,9 @@ impl UserProtocol for SilentKad {
                             }
                             _ => {}
                         }
+                    }
+                    if let Some(d) = self.die.as_ref() {
+                        let _ = d.send(());
                     }
                     reads.push(arm(s));   // keep the substream open, never answer
                 }
@@ -260,6 +267,7 @@ async fn node_main(
         });
     }
     let mut kad: Option<KademliaHandle> = None;
+    let (die_tx, mut die_rx) = mpsc::unbounded_channel::<()>();
     match cfg.role {
         Role::Kad => {
             let (kc, kh) = KadConfigBuilder::new()
@@ -269,8 +277,9 @@ async fn node_main(
             builder = builder.with_libp2p_kademlia(kc);
             kad = Some(kh);
         }
-        Role::Silent | Role::SilentPut => {
-            builder = builder.with_user_protocol(Box::new(SilentKad { log: log.clone(), node, ackfind: cfg.role == Role::SilentPut }));
+        Role::Silent | Role::SilentPut | Role::DieOnReq => {
+            let die = if cfg.role == Role::DieOnReq { Some(die_tx.clone()) } else { None };
+            builder = builder.with_user_protocol(Box::new(SilentKad { log: log.clone(), node, ackfind: cfg.role == Role::SilentPut, die }));
         }
         Role::NoKad => {}
     }
@@ -301,6 +310,10 @@ async fn node_main(
     let mut last_tick = Instant::now();
     loop {
         tokio::select! {
+            Some(()) = die_rx.recv() => {
+                log.push(json!({"k": "dead", "node": node, "why": "req"}));
+                return;
+            }
             _ = tick.tick() => {
                 let el = last_tick.elapsed().as_millis() as u64;
                 last_tick = Instant::now();
